@@ -258,13 +258,23 @@ fn malformed_block(g: &mut Gen, kind: &str) -> (BlockSpec, &'static str) {
         }
         "numeric-nonnumeric" => {
             let bad = *g.rng.pick(&["kab", "qq", "x1", "k2"]);
-            let mut lines: Vec<String> = vec!["1".into(), "2".into(), "7".into(), "10".into()];
             let desc = g.rng.chance(1, 2);
-            if desc {
-                lines.reverse();
-            }
-            let pos = g.rng.below(lines.len() + 1);
-            lines.insert(pos, bad.into());
+            let lines: Vec<String> = if g.rng.chance(1, 4) {
+                // nothing but non-numeric keys, all of them the same
+                vec![bad.to_string(); g.rng.range(2, 3)]
+            } else {
+                let mut lines: Vec<String> = vec!["1".into(), "2".into(), "7".into(), "10".into()];
+                lines.truncate(g.rng.range(1, 4));
+                if desc {
+                    lines.reverse();
+                }
+                let pos = g.rng.below(lines.len() + 1);
+                lines.insert(pos, bad.into());
+                if g.rng.chance(1, 3) {
+                    lines.insert(pos, bad.into()); // the same bad key twice in a row
+                }
+                lines
+            };
             b.lines = lines;
             b.attrs.push(("keep-sorted".into(), if desc { "desc" } else { "asc" }.into()));
             b.attrs.push(("keep-sorted-format".into(), "numeric".into()));
@@ -765,6 +775,24 @@ fn c14(seed: u64, thorough: bool) -> Scenario {
     g.world.args.long_flags = g.rng.chance(1, 2);
     g.world.args.flags_last = g.rng.chance(1, 3);
     g.world.args.joined_flags = g.rng.chance(1, 3);
+    // positional globs next to the flags (and next to a diff: files the globs do not match are
+    // then examined through the diff only)
+    if g.rng.chance(1, 3) {
+        let n = g.rng.range(1, 2);
+        for _ in 0..n {
+            let f = g.rng.below(g.world.files.len());
+            let path = g.world.files[f].path.clone();
+            let name = path.rsplit('/').next().unwrap().to_string();
+            let ext = name.rsplit('.').next().unwrap().to_string();
+            let gl = match g.rng.below(3) {
+                0 => format!("**/*.{ext}"),
+                1 => format!("**/{name}"),
+                _ => "**/*.rb".to_string(),
+            };
+            g.world.args.globs.push(gl);
+        }
+        tags.push("globs".into());
+    }
     let (world, plan) = g.finish();
     let mut prng = Rng::new(mix(seed, "plans"));
     let k = if thorough { 12 } else { 4 };
